@@ -132,7 +132,7 @@ func (u *Unit) coverBlock(st *State, fr *Frame, b *ssa.BasicBlock) {
 	if u.blockCover == nil {
 		u.blockCover = map[int]int{}
 	}
-	if u.blockCover[b.Index] >= 60 {
+	if u.blockCover[b.Index] >= 60 || b.Comment == "yield-invalid" {
 		return
 	}
 	u.blockCover[b.Index]++
